@@ -59,7 +59,10 @@ CONSTANTS
   Mixed,     \* "none" | "element" (MixedElement + split) | "space" (MixedFunctionSpace)
   ActCoef,   \* ActCoef[a]: index in Coefs of the coefficient that action / energy_norm put for argument a (0: none)
   SameSpace, \* test space = trial space
-  AsCoded    \* TRUE: adjoint part labels and extract_blocks structure as coded; FALSE: as intended
+  AsCoded,   \* TRUE: adjoint part labels and extract_blocks structure as coded; FALSE: as intended
+  Programs   \* {}: every term of the bound is built step by step; otherwise a set of [prog, ints]:
+             \* sampled programs (drawn by the harness), each validated against the constructors'
+             \* guards and taken as an initial state
 
 VARIABLES store, form, res
 vars == <<store, form, res>>
@@ -175,7 +178,27 @@ WithPrelude(s, k) == IF k > Len(Prelude) THEN s
 NInit == Len(Args) + Len(Coefs) + Len(Lits) + Len(Prelude)
 CoefId(k) == Len(Args) + k
 
-Init == store = WithPrelude(Base, 1) /\ form = << >> /\ res = "none"
+\* a sampled program: every step must satisfy the constructor's guard
+RECURSIVE RunProg(_, _, _)
+RunProg(s, prog, k) ==
+  IF k > Len(prog) THEN s
+  ELSE LET n == prog[k] IN
+       IF /\ n.op \in OpSet
+          /\ Len(n.args) = (IF n.op \in {"neg", "abs", "conj", "real", "imag", "var", "index"} THEN 1 ELSE 2)
+          /\ \A j \in 1..Len(n.args) : n.args[j] \in 1..Len(s) /\ (n.args[j] > NInit \/ n.args[j] \in Usable)
+          /\ OkNode(s, n.op, n.args, n.mi)
+       THEN RunProg(Append(s, MkNode(s, n.op, n.args, n.mi)), prog, k + 1)
+       ELSE << >>
+FormOk(s, ints) == /\ Len(ints) \in {1, 2}
+                   /\ \A k \in 1..Len(ints) : /\ ints[k].root \in 1..Len(s) /\ ints[k].key \in 1..4
+                                               /\ s[ints[k].root].sh = << >> /\ s[ints[k].root].op # "lit"
+
+Init == IF Programs = {}
+        THEN store = WithPrelude(Base, 1) /\ form = << >> /\ res = "none"
+        ELSE \E pr \in Programs :
+               LET s == RunProg(WithPrelude(Base, 1), pr.prog, 1) IN
+               /\ s # << >> /\ FormOk(s, pr.ints)
+               /\ store = s /\ form = pr.ints /\ res = "none"
 
 -----------------------------------------------------------------------------
 (* FormSplitter as coded: the arguments outside the requested block are replaced by Zero and  *)
